@@ -938,18 +938,23 @@ def r4(ctx):
                     row_ops.append((n, norm(n)))
             for op, label in row_ops:
                 needed = _needed_exceptions(op) | _op_extra_raises(op, vc_raises)[0]
-                why = "unguarded"
-                if br.host is not None:
-                    isinst = any(pol and isinstance(e, ast.Call) and ap(e.func) == "isinstance" and e.args and
-                                 isinstance(e.args[0], ast.Name) and e.args[0].id == br.val
-                                 for e, pol in facts(op, br.host.node))
-                    why = None if isinst else _guard_of(op, br.host.node, hcfg, needed)
-                if why is not None:
-                    why = _guard_of(br.site, f.node, cfg, needed)
+                why = None
+                for exc in sorted(needed):
+                    w1 = "unguarded"
+                    if br.host is not None:
+                        isinst = any(pol and isinstance(e, ast.Call) and ap(e.func) == "isinstance" and e.args and
+                                     isinstance(e.args[0], ast.Name) and e.args[0].id == br.val
+                                     for e, pol in facts(op, br.host.node))
+                        w1 = None if isinst else _guard_of(op, br.host.node, hcfg, {exc})
+                    if w1 is not None:
+                        w1 = _guard_of(br.site, f.node, cfg, {exc})
+                    if w1 is not None:
+                        why = w1
                 ok = why is None or sites_guarded(needed)
                 ctx.ob("C18.R4", f"_val_matches[{lit}]: {label} cannot raise out of the filter", ok, ctx.w(br.fi, br.node),
                        why or "")
     r4_result_is_bool(ctx)
+    r4_decode_guard(ctx)
 
 
 BOOL_CALLS = {"bool", "isinstance", "callable", "hasattr", "any", "all", "issubclass"}
@@ -2121,6 +2126,79 @@ def r13(ctx):
                f"values by template, so the re-imported message differs (to_dict, `== (x, y, z)` filters on it)")
 
 
+def r14(ctx):
+    repo = ctx.repo
+    ctx.rule("C18.R14", "value classes a field can hold compare the way the filter operators mean: != is the negation of == "
+                        "(a class overriding __eq__ on top of a foreign base also overrides __ne__), and orderings built on "
+                        "zip() only compare operands with the same number of components")
+    f, (op_p, val_p, exp_p), _ = val_matches_branches(ctx)
+    code = [g for g, _ in effective_code(repo, repo.cls("AbstractMessageLogEntry", LOGR), "_val_matches", depth=2)]
+    admitted = []
+    for g in code:
+        for c in calls(g.node):
+            if ap(c.func) == "isinstance" and len(c.args) == 2:
+                for e in _type_elts(repo, g, c.args[1]):
+                    ci = repo.resolve_class(ap(e) or "", g.module) if ap(e) else None
+                    if ci is not None and ci.module.rel.endswith("datatypes.py") and ci not in admitted:
+                        admitted.append(ci)
+    ctx.floor("C18.R14", "repo value classes admitted by _val_matches", len(admitted), 1)
+    for ci in sorted(admitted, key=lambda c: c.name):
+        eq = repo.lookup_method(ci, "__eq__")
+        if eq is not None:
+            # does the MRO continue into a non-repo base (which may bring its own __ne__)?
+            foreign = any(repo.resolve_class(b, c.module) is None and b.split(".")[-1] not in ("object", "ABC", "Generic")
+                          for c in repo.mro(ci) for b in c.base_names)
+            ne = repo.lookup_method(ci, "__ne__")
+            ctx.ob("C18.R14", f"{ci.name}: != is the negation of == (__ne__ defined along with __eq__)",
+                   (not foreign) or ne is not None, eq.where,
+                   f"{eq.qual} is overridden but __ne__ is not, and the class has a non-repo base whose own __ne__ wins over "
+                   f"Python's default: `x != y` can be true while `x == y` is true (filter `!=` matches equal values)")
+        for dn in ("__lt__", "__le__", "__gt__", "__ge__"):
+            m = repo.lookup_method(ci, dn)
+            if m is None:
+                continue
+            fns = [g for g, _ in effective_code(repo, ci, dn, depth=2)]
+            zips = [(g, c) for g in fns for c in calls(g.node, into_defs=True) if ap(c.func) == "zip"]
+            if not zips:
+                continue
+            bad = []
+            for g, c in zips:
+                strict = any(k.arg == "strict" and not (isinstance(k.value, ast.Constant) and not k.value.value) for k in c.keywords)
+                lencheck = any(isinstance(n, ast.Compare) and sum(1 for x in [n.left] + list(n.comparators)
+                                                                    if isinstance(x, ast.Call) and ap(x.func) == "len") >= 2
+                               for n in walk(g.node))
+                if not (strict or lencheck):
+                    bad.append(norm(c))
+            ctx.ob("C18.R14", f"{ci.name}.{dn} only orders operands with the same number of components", not bad, m.where,
+                   f"{bad}: zip() stops at the shorter operand and all() of nothing is True, so ordering against '' / b'' / a "
+                   f"shorter tuple is vacuously true (filter `Foo.Bar.Pos < \"\"` matches every entry)")
+
+
+def r4_decode_guard(ctx):
+    """A 4-part selector decodes a variable with its subfield serializer: whatever that raises on malformed contents
+    must not leave the filter."""
+    repo = ctx.repo
+    lcls = repo.cls("LLUDPMessageLogEntry", LOGR)
+    n = 0
+    for g, _ in effective_code(repo, lcls, "matches", depth=2):
+        for c in find_calls(g.node, "deserialize_var"):
+            n += 1
+            why = "not inside a try"
+            for tc in try_contexts(c, g.node):
+                if tc.section != "body":
+                    continue
+                hs = [h for h in tc.node.handlers if "*" in handler_names(h) or any(nm in CATCH_ALL for nm in handler_names(h))]
+                if hs and not any(isinstance(x, ast.Raise) for h in hs for x in walk(h)):
+                    why = None
+                    break
+                why = f"the enclosing handler(s) only catch {sorted({nm for h in tc.node.handlers for nm in handler_names(h)})}"
+                break
+            ctx.ob("C18.R4", f"{g.qual}: `{norm(c)}` cannot raise out of the filter", why is None, ctx.w(g, c),
+                   f"{why}: a selected variable whose contents do not decode (ValueError, BufferError, UnicodeDecodeError ...) "
+                   f"makes the subfield filter raise instead of being false for that variable")
+    ctx.floor("C18.R4", "subfield decodes in LLUDPMessageLogEntry.matches", n, 1)
+
+
 def r9(ctx):
     repo = ctx.repo
     ctx.rule("C18.R9", "block values that are int enums are stored as plain ints (enum members neither pickle reliably "
@@ -2313,6 +2391,7 @@ def run(ctx):
     r11(ctx)
     r12(ctx)
     r13(ctx)
+    r14(ctx)
     ctx.assume("arpeggio semantics: python list = ordered choice committing to the first matching alternative, "
                "string alternatives match by prefix; regex alternatives are not compared")
     ctx.assume("child filter nodes return MatchResult(False, []) | MatchResult(True, fields) (fields possibly empty)")
